@@ -4,6 +4,7 @@ predicate `P` only needs the comparator laws among `P`-elements; two permutation
 the same list when comparator-equal elements are equal.
 -/
 import Scalibr.Proofs.PatchCmp
+import Scalibr.Proofs.Worklist
 namespace Scalibr.Worklist
 open Scalibr
 
@@ -68,5 +69,17 @@ theorem cmp3_eq_zero {α} {E : α → α → Prop} {c : α → α → Int} (h : 
     decide (c a b < 0) = false → decide (c b a < 0) = false → c a b = 0 := by
   have := h.flip a b e
   simp only [decide_eq_false_iff_not]; omega
+
+/-- only non-empty patches are ever collected (`if len(patch.PackageUpdates) == 0 { continue }`) -/
+theorem collected_ok (patchFn : Task → Option Patch) (grouped : Bool) (vulns : List Str) (σ : List Nat) (c : List Patch)
+    (h : exec (outCP patchFn) (spawnCP patchFn grouped) σ (initCP vulns) = some ⟨[], c⟩) :
+    ∀ p ∈ c, p.updates ≠ [] := by
+  obtain ⟨ps, _, hc⟩ := exec_runs _ _ σ _ _ h rfl
+  simp only [initCP, List.nil_append] at hc
+  intro p hp
+  rw [hc] at hp
+  obtain ⟨t, _, ht⟩ := List.mem_filterMap.mp hp
+  exact (outCP_some ht).2
+
 
 end Scalibr.Worklist
